@@ -188,3 +188,119 @@ func verifH_C06_memtable_write() {
 	verifCover(verifAnd(fresh == 1, n == 2), "one-chunk-dropped")
 	verifReach("end")
 }
+
+// verifSrc is a table file already on disk, as the conjoiner sees it: its parsed index and its counts.
+type verifSrc struct {
+	chunkSource
+	idx   tableIndex
+	uncmp uint64
+	id    int
+}
+
+func (s verifSrc) hash() hash.Hash {
+	var h hash.Hash
+	h[0] = byte(1 + s.id)
+	return h
+}
+func (s verifSrc) index() (tableIndex, error)      { return s.idx, nil }
+func (s verifSrc) count() uint32                   { return s.idx.chunkCount() }
+func (s verifSrc) uncompressedLen() (uint64, error) { return s.uncmp, nil }
+
+// verifWriteTable writes n chunks (symbolic addresses, symbolic 1..2 byte payloads) with the real tableWriter and
+// parses the index back: one conjoin source. Returns the addresses and where each chunk record lies in the file.
+func verifWriteTable(n int) (verifSrc, []hash.Hash, []uint64, []uint32) {
+	buf := make([]byte, 256)
+	tw := &tableWriter{buff: buf, blockHash: verifBlockHash{}, snapper: verifSnappy{}}
+	addrs := make([]hash.Hash, n)
+	offs := make([]uint64, n)
+	lens := make([]uint32, n)
+	var uncmp uint64
+	for i := 0; i < n; i++ {
+		addrs[i] = verifNondetHash("addr")
+		dl := verifConcrete(verifNondetIntRange("datalen", 1, 2), 4)
+		offs[i] = tw.pos
+		tw.addChunk(addrs[i], verifNondetBytes("data", dl))
+		lens[i] = uint32(tw.pos - offs[i])
+		uncmp += uint64(dl)
+	}
+	flen, _, err := tw.finish()
+	verifAssert(err == nil, "setup:finish")
+	idxStart := flen - indexSize(uint32(n)) - footerSize
+	idx, err := parseTableIndex(context.Background(), buf[idxStart:flen], &UnlimitedQuotaProvider{})
+	verifAssert(err == nil, "setup:parse")
+	return verifSrc{idx: idx, uncmp: uncmp}, addrs, offs, lens
+}
+
+// H-C06-conjoin-plan: conjoining two table files (planTableConjoin: sources ordered by descending data size, merged
+// index built from their prefix tuples / lengths / suffixes with shifted ordinals) yields an index in which every
+// chunk of every source is found at (start of that source's data in the conjoined file + its offset in the source) with
+// its length, every other address is absent, and count / compressed size / uncompressed size are the sums.
+// bounds: two sources of 1..2 chunks each, all addresses symbolic and pairwise distinct.
+func verifH_C06_conjoin_plan() {
+	verifPanicIsViolation()
+	verifUnwind(128)
+	ctx := context.Background()
+	var srcs [2]verifSrc
+	var addrs [2][]hash.Hash
+	var offs [2][]uint64
+	var lens [2][]uint32
+	var sized []sourceWithSize
+	total := 0
+	for s := 0; s < 2; s++ {
+		n := verifConcrete(verifNondetIntRange("chunks", 1, verifBoundConjoinChunks), 4)
+		srcs[s], addrs[s], offs[s], lens[s] = verifWriteTable(n)
+		srcs[s].id = s
+		total += n
+		sized = append(sized, sourceWithSize{source: srcs[s], dataLen: calcChunkRangeSize(srcs[s].idx)})
+	}
+	for i := range addrs[0] {
+		for j := range addrs[1] {
+			verifAssume(addrs[0][i] != addrs[1][j])
+		}
+	}
+	if len(addrs[0]) == 2 {
+		verifAssume(addrs[0][0] != addrs[0][1])
+	}
+	if len(addrs[1]) == 2 {
+		verifAssume(addrs[1][0] != addrs[1][1])
+	}
+	d0, d1 := sized[0].dataLen, sized[1].dataLen
+	plan, err := planTableConjoin(ctx, sized, &UnlimitedQuotaProvider{}, &Stats{})
+	verifAssert(err == nil, "plan-ok")
+	if err != nil {
+		return
+	}
+	verifAssert(int(plan.chunkCount) == total, "chunk-count-is-the-sum")
+	verifAssert(plan.totalCompressedData == d0+d1, "compressed-size-is-the-sum")
+	// where each source's data starts in the conjoined file: in the order the plan lists the sources
+	var base [2]uint64
+	first := plan.sources.sws[0].source.(verifSrc).id
+	verifAssert(plan.sources.sws[0].dataLen >= plan.sources.sws[1].dataLen, "largest-source-first")
+	base[first] = 0
+	base[1-first] = plan.sources.sws[0].dataLen
+	merged, perr := parseTableIndex(ctx, plan.mergedIndex, &UnlimitedQuotaProvider{})
+	verifAssert(perr == nil, "merged-index-parses")
+	if perr != nil {
+		return
+	}
+	verifAssert(int(merged.chunkCount()) == total, "merged-count")
+	verifAssert(merged.totalUncompressedData() == srcs[0].uncmp+srcs[1].uncmp, "uncompressed-size-is-the-sum")
+	h := verifNondetHash("probe")
+	e, ok, lerr := merged.lookup(&h)
+	verifAssert(lerr == nil, "lookup-ok")
+	present := false
+	for s := 0; s < 2; s++ {
+		for i := range addrs[s] {
+			is := addrs[s][i] == h
+			present = verifOr(present, is)
+			if ok {
+				verifAssert(verifImplies(is, e.Offset() == base[s]+offs[s][i]), "chunk-at-source-base-plus-offset")
+				verifAssert(verifImplies(is, e.Length() == lens[s][i]), "chunk-length-kept")
+			}
+		}
+	}
+	verifObserve("found", verifIteU64(ok, 1, 0))
+	verifAssert(ok == present, "found-iff-in-some-source")
+	verifCover(verifAnd(ok, first == 1), "second-source-placed-first")
+	verifReach("end")
+}
